@@ -527,7 +527,9 @@ def finish(ctx):
         cov.setdefault("programs", cov["evaluations"])
         cov.setdefault("disagreements_checked", len(ctx.violations))
     os.makedirs(EVID, exist_ok=True)
-    if not ctx.replay:
+    # evidence belongs to runs against /repo itself: experiments on another checkout (VERIF_REPO) must not overwrite it
+    foreign = os.environ.get("VERIF_REPO") and os.path.realpath(os.environ["VERIF_REPO"]) != os.path.realpath("/repo")
+    if not ctx.replay and not foreign:
         with open(os.path.join(EVID, ctx.pid + ".json"), "w") as f:
             json.dump(ev, f, indent=1)
     for fid, text in ctx.known:
